@@ -8,6 +8,7 @@ import flow
 from flow import fmt_events
 from roles import field_root, FILE
 from rules_pipeline import expr_str, methods_of, resolve_alias, deep_resolve, flat_nodes
+import rules_pipeline
 
 OHB = 'Vector::BLF::ObjectHeaderBase'
 U2Q = FILE + '::uncompressedFile2ReadWriteQueue'
@@ -1280,7 +1281,9 @@ def F5F6(F, rep, R):
                     break
             top = top or c['caller']
             writers.setdefault((top, c['role'], c['phase']), c)
-    extra = [k for k in writers if k not in allowed and not (k[0] == FILE + '::close' and k[2] == 'post-join')]
+    # close() itself (or a private part of it: finalizeCompressedFile()) repositions and rewrites the header once both workers are joined
+    extra = [k for k in writers if k not in allowed and not (k[0].startswith(FILE + '::') and k[1] == 'APP' and k[2] == 'post-join' and
+                                                               (k[0] == FILE + '::close' or (writers[k]['chain'] and writers[k]['chain'][0] == FILE + '::close')))]
     rep.ob('F5', 'compressed-file|writers', not extra, None,
            'writers of the compressed file: %s' % ', '.join('%s by %s (%s)' % (short(a), b, c) for a, b, c in sorted(writers)) +
            ('' if not extra else ' - NOT ALLOWED: ' + ', '.join('%s by %s (%s) at %s:%s' % (short(a), b, c, short(writers[(a, b, c)]['caller']), writers[(a, b, c)]['line']) for a, b, c in extra)),
@@ -1881,9 +1884,32 @@ def B7(F, rep):
                 if rets:
                     post = _norm(expr_str(deep_resolve(n['cond'], finder)))
     pname = finder['params'][0]['name'] if finder['params'] else 'pos'
-    want_post = '((%s >= filePosition) && (%s < (uncompressedFileSize + filePosition)))' % (pname, pname)
-    alt_post = '((%s >= filePosition) && (%s < (filePosition + uncompressedFileSize)))' % (pname, pname)
-    ok_post = post in (want_post, alt_post)
+    # the predicate says exactly  filePosition <= pos  and  pos < filePosition + uncompressedFileSize  - in whatever spelling: operands
+    # swapped, negated comparisons, De Morgan
+    pred = None
+    if lam:
+        rets = [r for r in walk(lam[0]['body']) if r.get('k') == 'Return']
+        pred = deep_resolve(rets[0]['value'], finder) if rets else None
+    else:
+        for n in walk(finder['body']):
+            if n.get('k') == 'If' and [r for r in walk(n.get('then') or {}) if r.get('k') == 'Return' and r.get('value') is not None and
+                                       strip_all_casts(r['value']).get('lit') != 'null']:
+                pred = deep_resolve(n['cond'], finder)
+    FLIP = {'<': '>', '<=': '>=', '>': '<', '>=': '<=', '==': '==', '!=': '!='}
+    conj = set()
+    nconj = 0
+    for c_ in (rules_pipeline.split_and(pred) if pred is not None else []):
+        nconj += 1
+        cp = rules_pipeline.cmp_parts(c_)
+        if cp is None:
+            conj.add(('?', expr_str(c_)))
+            continue
+        a_, op_, b_ = _norm(expr_str(cp[0])), cp[1], _norm(expr_str(cp[2]))
+        if b_ == pname:
+            a_, op_, b_ = b_, FLIP[op_], a_
+        conj.add((op_, b_) if a_ == pname else ('?', '%s %s %s' % (a_, op_, b_)))
+    ok_post = nconj == 2 and ('>=', 'filePosition') in conj and \
+        bool(conj & {('<', '(uncompressedFileSize + filePosition)'), ('<', '(filePosition + uncompressedFileSize)')})
     rep.ob('B7', 'logContainerContaining|postcondition', ok_post, rep.fn_site(finder),
            'logContainerContaining(pos) returns a container with filePosition <= pos < filePosition + uncompressedFileSize' if ok_post else
            'logContainerContaining selects containers by [%s]: a position outside [filePosition, filePosition + uncompressedFileSize) can be returned' % post,
@@ -2305,13 +2331,29 @@ def _r3_starts(evs, fn, pushed):
         lhs, rhs = (n['lhs'], n['rhs']) if n.get('k') == 'Bin' else ((n['args'][0], n['args'][1]) if len(n.get('args', [])) == 2 else (None, None))
         if lhs is not None and mname(lhs) == 'filePosition' and n.get('op') == '=' and (pushed is None or _ptr_root(lhs) == pushed):
             r_ = deep_resolve(rhs, fn)
-            sx = _norm(expr_str(r_))
-            if sx in ('(uncompressedFileSize + filePosition)', '(filePosition + uncompressedFileSize)'):
-                # both operands must be fields of the list's last element
-                mem = [x for x in walk(r_) if x.get('k') == 'Member' and x.get('name') in ('uncompressedFileSize', 'filePosition')]
-                if len(mem) == 2 and all(_of_back(x) for x in mem):
-                    sx = 'END-OF-LAST'
-            starts.append(sx)
+            vals = [(r_, fn)]
+            c_ = strip_all_casts(r_)
+            while isinstance(c_, dict) and c_.get('k') == 'Construct' and len(c_.get('args', [])) == 1:
+                c_ = strip_all_casts(c_['args'][0])
+            if isinstance(c_, dict) and c_.get('k') == 'Call' and c_.get('ck') == 'member' and c_.get('calleeInRoot') and not c_.get('args') and \
+                    rules_pipeline._FACTS[0] is not None and (c_.get('obj') is None or (strip_all_casts(c_['obj']) or {}).get('k') == 'This'):
+                # std::streampos endOfBufferedData() const: a private helper of the class that only computes the position - each value it can
+                # return is a possible start
+                hs = [h for h in rules_pipeline._FACTS[0].functions.get(c_.get('callee'), []) if h['sig'] == c_.get('csig') and h.get('access') == 2 and
+                      h.get('class') == fn.get('class')]
+                if len(hs) == 1 and not [x for x in walk(hs[0]['body']) if x.get('k') == 'Bin' and x.get('op') in ('=', '+=', '-=') or
+                                         (x.get('k') == 'Call' and x.get('fn') in ('push_back', 'pop_front', 'resize', 'erase', 'clear'))]:
+                    rets = [x for x in walk(hs[0]['body'], into_lambda=False) if x.get('k') == 'Return' and x.get('value') is not None]
+                    if rets:
+                        vals = [(deep_resolve(x['value'], hs[0]), hs[0]) for x in rets]
+            for r_, f_ in vals:
+                sx = _norm(expr_str(r_))
+                if sx in ('(uncompressedFileSize + filePosition)', '(filePosition + uncompressedFileSize)'):
+                    # both operands must be fields of the list's last element
+                    mem = [x for x in walk(r_) if x.get('k') == 'Member' and x.get('name') in ('uncompressedFileSize', 'filePosition')]
+                    if len(mem) == 2 and all(_of_back(x) for x in mem):
+                        sx = 'END-OF-LAST'
+                starts.append(sx)
     return starts
 
 
